@@ -66,6 +66,18 @@ def handle : List String → String
       | some c, some w, some h, some m, some f, some p, some b =>
         showRead (imagePath refEnv sy c w h m f p b (ext39 == "1") (th == "1"))
       | _, _, _, _, _, _, _ => "bad-op"
+  | ["pathm", sym, contents, width, height, margin, pose, binz, formats, th] =>
+    match symOf? sym with
+    | none => "bad-op"
+    | some sy =>
+      match contentsOf? sy contents, parseInt? width, parseInt? height, optInt? margin, poseOf? pose, binzOf? binz with
+      | some c, some w, some h, some m, some p, some b =>
+        let fs : List (Option CheckDigit.EanKind) :=
+          if formats == "-" then [] else (formats.splitOn ",").map (fun f =>
+            match f with
+            | "EAN_13" => some .ean13 | "EAN_8" => some .ean8 | "UPC_A" => some .upca | "UPC_E" => some .upce | _ => none)
+        showRead (imagePathMulti refEnv sy c w h m none p b fs (th == "1"))
+      | _, _, _, _, _, _ => "bad-op"
   | ["pic", sym, contents, width, height, margin, forced, pose] =>
     match symOf? sym with
     | none => "bad-op"
